@@ -166,16 +166,25 @@ def run(report, p):
     sorts = [n for n in walk_no_nested(loader.node) if isinstance(n, ast.Call) and isinstance(n.func, ast.Attribute) and n.func.attr == "sort"]
     apps = [c for c, tg in p.calls[loader.qual] if any(t.endswith("append_hash_list") for t in tg)]
     r3.instance(loader, sorts[0] if sorts else loader.node, "loader sort")
-    ok = len(sorts) == 1 and len(apps) >= 1
+    sorts_all = sorts
+    sorteds = [n for n in walk_no_nested(loader.node) if isinstance(n, ast.Call) and norm(n.func) == "sorted" and n.args]
+    ok = len(sorts) + len(sorteds) == 1 and len(apps) >= 1
     if ok:
-        s0 = sorts[0]
+        s0 = (sorts + sorteds)[0]
         key = next((k.value for k in s0.keywords if k.arg == "key"), None)
         rev = next((k.value for k in s0.keywords if k.arg == "reverse"), None)
         ok = isinstance(key, ast.Lambda) and norm(key.body).endswith(".generation_number") and (rev is None or p.fold(rev, loader) is False)
         for a in apps:
             lp = parent(parent(a))
-            ok = ok and isinstance(lp, ast.For) and norm(lp.iter) == norm(s0.func.value) and g.dominates(g.node_for(s0), g.node_for(a))
-    r3.check(ok, loader, sorts[0] if sorts else loader.node, "the loader does not add the parsed generations in ascending generation-number order", construct="loader order")
+            if sorts:
+                ok = ok and isinstance(lp, ast.For) and norm(lp.iter) == norm(s0.func.value) and g.dominates(g.node_for(s0), g.node_for(a))
+            else:
+                # for x in sorted(L, key=...):  or  L2 = sorted(L, key=...); for x in L2:
+                it = lp.iter if isinstance(lp, ast.For) else None
+                direct = it is s0
+                via = isinstance(it, ast.Name) and isinstance(parent(s0), ast.Assign) and norm(parent(s0).targets[0]) == it.id and g.dominates(g.node_for(s0), g.node_for(a))
+                ok = ok and (direct or via)
+    r3.check(ok, loader, (sorts + sorteds)[0] if (sorts + sorteds) else loader.node, "the loader does not add the parsed generations in ascending generation-number order", construct="loader order")
     wng = p.funcs.get(f"{hist}.write_new_generation")
     gw = cfg_of(wng)
     app = [c for c, tg in p.calls[wng.qual] if any(t.endswith("append_hash_list") for t in tg)]
